@@ -137,6 +137,9 @@ def hand_written():
         [t([["r", 0]], entry=[["r", 1]], par=True), t([["m", 1]]), t([["r", 1]], par=True)],
         [t([["m", 1]]), t([["r", 0]], entry=[["om", 1]], par=True)],
         [t([["r", 0]], entry=[["or", 1]], par=True), t([["r", 2]]), t([["m", 1]], par=True)],
+        # an identifier among the entry views reaches no component: it must not keep a run-time-disjoint task waiting
+        [t([["m", 0]], ["has", 1], entry=[["id", -1]]), t([["m", 0]], ["not", ["has", 1]])],
+        [t([["m", 0]], ["has", 1], entry=[["id", -1], ["r", 2]]), t([["m", 0]], ["not", ["has", 1]]), t([["r", 3]])],
     ]
 
 
